@@ -138,7 +138,7 @@ Definition expected_catalog_read : list string := [
   "ReadStringFromReader key"%string;
   "ReadIntFromReader incount"%string;
   "for subIndex < incount {"%string;
-  "ReadStringFromReader content[subIndex]"%string;
+  "ReadStringFromReader append content"%string;
   "}"%string;
   "store cat.MemoryExpressionVariableMap[key] = content"%string;
   "}"%string;
@@ -147,7 +147,7 @@ Definition expected_catalog_read : list string := [
   "ReadStringFromReader key"%string;
   "ReadIntFromReader incount"%string;
   "for subIndex < incount {"%string;
-  "ReadStringFromReader content[subIndex]"%string;
+  "ReadStringFromReader append content"%string;
   "}"%string;
   "store cat.MemoryExpressionAtomVariableMap[key] = content"%string;
   "}"%string].
@@ -163,4 +163,36 @@ Proof. reflexivity. Qed.
 Lemma anchor_errors_checked : gen_unchecked_errors = [].
 Proof. reflexivity. Qed.
 Lemma anchor_errors_not_swallowed : gen_swallowed_errors = [].
+Proof. reflexivity. Qed.
+
+(* ---- allocation (C20): no make takes its size from the stream.  The only make with a computed
+   size is the string-constant rebuild of BuildKnowledgeBase, guarded by the number of bytes
+   present; byte blocks of a length given by the stream are read through readBytesFromReader
+   (io.CopyN into a growing bytes.Buffer, n > MaxInt64 rejected), string slices grow by append
+   (anchor_meta_read / anchor_catalog_read accept both spellings of the loops; a make([]string, n)
+   or make([]byte, n) with n from the stream lands in gen_length_driven_makes) ---- *)
+Lemma anchor_no_length_driven_make : gen_length_driven_makes = [].
+Proof. reflexivity. Qed.
+
+Lemma anchor_guarded_makes : gen_guarded_makes =
+  ["Catalog.BuildKnowledgeBase: make([]byte, dLen) after if dLen > uint64(buffer.Len()) { return }"%string].
+Proof. reflexivity. Qed.
+
+Lemma anchor_read_helper_guards : gen_read_helper_guards = ["n > math.MaxInt64"%string; "err == io.EOF"%string; "err != nil"%string].
+Proof. reflexivity. Qed.
+
+(* every raw read: fixed-size buffers through io.ReadFull, stream-sized blocks through the helper only *)
+Lemma anchor_raw_reads : gen_raw_reads = [
+  "Catalog.BuildKnowledgeBase: buffer.Read(length)"%string;
+  "Catalog.BuildKnowledgeBase: buffer.Read(byteArr)"%string;
+  "Catalog.BuildKnowledgeBase: buffer.Read(arr)"%string;
+  "Catalog.BuildKnowledgeBase: buffer.Read(arr)"%string;
+  "Catalog.BuildKnowledgeBase: buffer.Read(arr)"%string;
+  "ConstantMeta.ReadMetaFrom: readBytesFromReader(reader, length)"%string;
+  "ReadStringFromReader: io.ReadFull(reader, length)"%string;
+  "ReadStringFromReader: readBytesFromReader(reader, strLen)"%string;
+  "readBytesFromReader: io.CopyN(&buf, reader, int64(n))"%string;
+  "ReadIntFromReader: io.ReadFull(r, byteArray)"%string;
+  "ReadBoolFromReader: io.ReadFull(r, byteArray)"%string;
+  "ReadFloatFromReader: io.ReadFull(r, byteArray)"%string].
 Proof. reflexivity. Qed.
